@@ -28,11 +28,14 @@ def compositions(draw, total, parts):
 
 
 @st.composite
-def logprob_matrix(draw, min_T=1, max_T=8, min_C=2, max_C=6, families=None):
+def logprob_matrix(draw, min_T=1, max_T=8, min_C=2, max_C=6, families=None, big_alphabet=False):
     """(family, T x C float64 matrix of row-normalised log-probabilities, blank last)."""
     fam = draw(st.sampled_from(families or ["gauss", "peaky", "grid", "lowrows", "script"]))
     T = draw(st.integers(min_T, max_T))
     C = draw(st.integers(min_C, max_C))
+    if big_alphabet and draw(st.integers(0, 5)) == 0:
+        C = draw(st.integers(11, 14))       # more than ten symbols (two-digit indices)
+        T = min(T, 3)
     blank = C - 1
     if fam == "gauss":
         temp = draw(st.sampled_from([0.5, 1.0, 3.0, 8.0]))
